@@ -55,6 +55,10 @@ func (c03) Gen(seed uint64, run int, tier string) *Plan {
 			}
 		case x < 62:
 			p.Actions = append(p.Actions, Action{Kind: "register", D: r.Intn(1 << 30), A: r.Intn(4)})
+			if r.Intn(3) == 0 {
+				// a registration whose metadata block is cut short by C bytes: not all fields are there
+				p.Actions = append(p.Actions, Action{Kind: "register-short", D: r.Intn(1 << 30), C: 1 + r.Intn(24)})
+			}
 		case x < 70:
 			p.Actions = append(p.Actions, Action{Kind: "reregister", B: d})
 		case x < 78:
@@ -162,6 +166,31 @@ func (c03) Exec(p *Plan, dir string) *Result {
 			}
 			st.checkSession(d, true)
 			res.Probe("registrations")
+		case "register-short":
+			cr := simrt.NewRand(uint64(a.D))
+			id := uint32(0x06000000 + cr.Intn(0x70000000))
+			if w.TS.AgentExist(int(id)) {
+				continue
+			}
+			d := &world.Demon{ID: id, Key: randBytes(cr, 32), IV: randBytes(cr, 16), Meta: sentMeta(cr)}
+			pkt := d.InitPacket()
+			pkt = pkt[:len(pkt)-a.C]
+			binary.BigEndian.PutUint32(pkt, uint32(len(pkt)-4))
+			before := len(w.TS.Agents.Agents)
+			st.wit.Pump()
+			mark := len(st.wit.Events)
+			c := w.Do(world.AgentReq{Port: w.Cfg.HTTP[0].PortBind, URI: w.Demons[0].URI, Body: pkt})
+			st.wit.Pump()
+			res.Probe("truncated-registrations")
+			announced := false
+			for _, e := range st.wit.Events[mark:] {
+				if e.Pkg.Head.Event == world.EvSession && e.Pkg.Body.SubEvent == world.SessNew {
+					announced = true
+				}
+			}
+			if len(w.TS.Agents.Agents) != before || announced || (c.Done && c.Rec.Status() == 200) {
+				res.Violate("C03", "completeness-check", "registration:session-from-truncated-packet", fmt.Sprintf("a registration of %08x whose metadata is cut short by %d byte(s) was accepted (sessions %d -> %d, announced=%v, status %d)", id, a.C, before, len(w.TS.Agents.Agents), announced, c.Rec.Status()), w.Sim)
+			}
 		case "reregister":
 			d := w.Demons[a.B%len(w.Demons)]
 			before := len(w.TS.Agents.Agents)
